@@ -207,7 +207,7 @@ def pool_timeout_scenarios(draw):
         waiters.append({"p": draw(st.sampled_from([0, 0, 0.5, 1.0, 2.5, 7.0, None])), "host": draw(st.sampled_from(["a.test", "a.test", "b.test"]))})
     return {"kind": draw(st.sampled_from(["direct-h1", "direct-h1", "direct-tls-h1", "forward", "tunnel-h1", "socks-h1"])), "holders": n_hold, "waiters": waiters,
             "advances": draw(st.lists(st.sampled_from([0.3, 0.7, 1.1, 2.3, 5.0]), max_size=6)),
-            "choices": draw(st.lists(st.integers(0, 9), max_size=60))}
+            "choices": draw(st.lists(st.integers(0, 9), max_size=60)), "runtime": draw(st.sampled_from(["asyncio", "trio"]))}
 
 
 def execute_pool_timeout(sc) -> Outcome:
@@ -229,11 +229,13 @@ def execute_pool_timeout(sc) -> Outcome:
         final["repr"] = repr(r.pool)
         await r.pool.aclose()
 
-    r = AioRun(world, pool_cfg, callers, choices=sc["choices"], advances=sc["advances"], epilogue=epilogue)
+    from ..trio_run import make_run
+
+    r = make_run(sc.get("runtime"))(world, pool_cfg, callers, choices=sc["choices"], advances=sc["advances"], epilogue=epilogue)
     r.run()
     vio = []
-    what = f"{sc['kind']} max_connections={sc['holders']} waiters={[w['p'] for w in sc['waiters']]}"
-    tags = [sc["kind"]]
+    what = ("[trio] " if sc.get("runtime") == "trio" else "") + f"{sc['kind']} max_connections={sc['holders']} waiters={[w['p'] for w in sc['waiters']]}"
+    tags = [sc["kind"], "runtime-" + (sc.get("runtime") or "asyncio")]
     close_call = False
     waited = False
     for j, w in enumerate(sc["waiters"]):
